@@ -84,6 +84,24 @@ def model_check_loop(res, tier, invs, power):
             raise Undecided("MODEL-DRIFT: Wal.tla (loop mode, power loss) violates %s" % r["violated"])
 
 
+def refinement(res, tier):
+    """Wal.tla (system-call grain) refines WalCore.tla (message grain): TLC checks WC!Spec and the abstract inductive invariant
+    through the refinement mapping of WalRefine.tla.  Design level: a failure is model drift, never a violation."""
+    base = dict(FixedFiles='{"F"}', VarFiles='{"V"}', Slots='{1,2}', MaxReq=2, MaxCmds=1, MaxCrash=1, MaxCkpt=1, PowerLoss="FALSE",
+                LoopMode="FALSE", MaxRot=0, Deviations="{}")
+    cfgs = [("inline_kill", base)]
+    if tier != "quick":
+        cfgs.append(("loop_power", dict(base, PowerLoss="TRUE", LoopMode="TRUE", MaxRot=1)))
+        cfgs.append(("loop_power_2crashes_2ckpts", dict(base, PowerLoss="TRUE", LoopMode="TRUE", MaxRot=1, MaxCrash=2, MaxCkpt=2)))
+    for name, consts in cfgs:
+        r = vlib.run_tlc("WalRefine", "refine_%s.cfg" % name, cfg_text=vlib.cfg_text(consts, invariants=["AbstractInv"], view="RView", spec="RSpec", properties=["Refines"]),
+                         timeout=3000, heap="12g")
+        vlib.tlc_ok(r, "WalRefine/" + name)
+        res.tlc(r, "WalRefine/%s (Wal refines WalCore)" % name)
+        if r["violated"]:
+            raise Undecided("MODEL-DRIFT: Wal.tla does not refine WalCore.tla (%s): %s" % (name, r["violated"]))
+
+
 def apalache_inductive(res):
     """Unbounded part (design level): Apalache discharges the inductive invariant of WalCore.tla - Init => IndInv and
     IndInv /\ Next => IndInv' for every bound of 1..12 transaction groups and any number of checkpoints, truncations,
@@ -106,7 +124,7 @@ def apalache_inductive(res):
         return "not-run: " + p.stdout[-200:]
     out["Init => IndInv (length 0)"] = run("ConstInit", "Init", 0)
     out["IndInv /\\ Next => IndInv' (length 1)"] = run("ConstInit", "IndInit", 1)
-    for dev in ("CkptWithoutSync", "PrepCountsAsDone", "TruncateEarly"):
+    for dev in ("CkptWithoutSync", "PrepCountsAsDone", "TruncateEarly", "DeleteBeforeDone"):
         out["deviation %s breaks the step (expected Error)" % dev] = run("ConstInit" + dev, "IndInit", 1)
     shutil.rmtree(d, ignore_errors=True)
     res.cov["apalache_inductive_invariant_WalCore"] = out
@@ -182,6 +200,7 @@ def run_c05(tier):
             if jd["bad"]["C01"]:
                 res.violation("%s: acknowledged transactions not all visible after recovery: %s" % (where, "; ".join(jd["bad"]["C01"][:4])), replay)
     res.cov["crash_images"] = nimg
+    refinement(res, tier)
     if not quick:
         apalache_inductive(res)
     for x in runs[:2]:
